@@ -2,7 +2,8 @@
 
 Lean: Props/C16.lean over Model/Loader.lean (get_modules = first-occurrence dedup of the walks, for any
 forest / target list; spelling irrelevant; unselected never called; selected+invalid rejected with the
-located error; arity rule refuted for the 3-parameter check without `-> None`, proved with it).
+located error; the parameter-count arity rule proved right for every accepted check, the former
+`__annotations__` rule refuted as history; a keyword-only `settings` still refutes "the call binds").
 
 GEN-PLUGIN writes REAL packages into scratch directories (nested sub-packages, a directory without
 __init__, every signature shape, modules without / with two Error classes, an entry-point plugin).
@@ -347,7 +348,7 @@ def atom(a):
     try:
         hash(a)
     except TypeError:
-        return {"a": "unhashable", "n": type(a).__name__}
+        return {"a": "unhashable", "n": type(a).__name__, "r": repr(a)}
     if a in loader.VALID_NODE_TYPES:
         return {"a": "node", "n": a.__name__}
     if a is Settings:
@@ -357,11 +358,11 @@ def atom(a):
     n = getattr(a, "__name__", None)
     if isinstance(n, str):
         return {"a": "cls", "n": n}
-    return {"a": "opaque"}
+    return {"a": "opaque", "r": repr(a)}
 
 def ann(a):
     if isinstance(a, types.UnionType):
-        return {"u": [atom(x) for x in a.__args__]}
+        return {"u": [atom(x) for x in a.__args__], "r": repr(a)}
     return atom(a)
 
 P = inspect.Parameter
@@ -449,8 +450,10 @@ for case in req["cases"]:
     try:
         for m in loader.get_modules(list(case["targets"])):
             mods.append(m.__name__)
+    except ImportError as e:
+        err = {"exc": type(e).__name__, "text": str(e)}
     except BaseException as e:
-        err = type(e).__name__
+        err = {"exc": type(e).__name__, "text": None}
     ans["modules"] = {"out": mods, "err": err}
     if "flags" in case:
         argv = ["f.py", *case["flags"]]
@@ -464,6 +467,8 @@ for case in req["cases"]:
             ans["load"] = {"r": "ok", "table": {ty.__name__: [f.__module__ for f in fs] for ty, fs in found.items() if fs}}
         except TypeError as e:
             ans["load"] = {"r": "typeError", "text": str(e)}
+        except ImportError as e:
+            ans["load"] = {"r": "importError", "text": str(e)}
         except BaseException as e:
             ans["load"] = {"r": "crash", "exc": type(e).__name__}
     out["cases"].append(ans)
@@ -699,8 +704,8 @@ def canon_table_model(table: list[list[str]]) -> dict[str, list[str]]:
 
 
 def norm_model_err(e: dict[str, Any]) -> dict[str, Any]:
-    if e["r"] == "typeError":
-        return {"r": "typeError", "text": e["text"]}
+    if e["r"] in ("typeError", "importError"):
+        return {"r": e["r"], "text": e["text"]}
     return {"r": "crash", "exc": e["exc"]}
 
 
@@ -744,7 +749,8 @@ def process_world(ctx: Any, world: dict[str, Any], root: Path, builtin_forest: l
         if rng.random() < 0.15:
             tl.insert(rng.randint(0, k), rng.choice(bogus))
         tlists.append(tl)
-    tlists += [[bogus[0]], [names[0], bogus[1]], [bogus[-1], names[0]]]
+    tlists += [[bogus[0]], [names[0], bogus[1]], [bogus[-1], names[0]], [""], [names[0], "", bogus[0]], [bogus[0], ""],
+               [names[0] + ".nope.deeper"], [bogus[-1] + ".y"]]
     fsets = flagsets(codes, rng)
     cases = []
     for i, tl in enumerate(tlists):
@@ -868,7 +874,10 @@ def account_world(ctx: Any, pw: dict[str, Any], cli_obs: list[dict[str, Any]], s
             key = (wid, tuple(c["targets"]), tuple(c["flags"]))
             res.case(key, nontrivial=bool(c["targets"]))
             res.bump("targets:" + classify_targets(c["targets"]).split(",")[0])
-            mm = {"out": m["modules"]["out"], "err": None if m["modules"]["err"] is None else m["modules"]["err"].get("exc")}
+            me = m["modules"]["err"]
+            if me is not None:
+                me = {"exc": "ModuleNotFoundError", "text": me["text"]} if me["r"] == "importError" else {"exc": me.get("exc"), "text": None}
+            mm = {"out": m["modules"]["out"], "err": me}
             if mm != a["modules"]:
                 res.disagree("getModules vs get_modules", {"world": wid, "targets": mc["targets"]}, mm, a["modules"])
             if len(set(a["modules"]["out"])) != len(a["modules"]["out"]):
@@ -971,7 +980,8 @@ def probes(ctx: Any, root: Path) -> None:
         if cls.startswith("note:"):
             res.notes.append(f"{cls[5:]}: `refurb {' '.join(argv)}` -> exit {rc}, " + (f"traceback ending `{last}`" if tb else f"stdout {out.strip()[:120]!r}") + " (outside the signature contract; recorded, not judged)")
             continue
-        clean = rc == 1 and not tb and len(lines) == 1
+        target = [argv[i + 1] for i, a_ in enumerate(argv) if a_ == "--load"][-1]  # the one that cannot be imported
+        clean = rc == 1 and not tb and len(lines) == 1 and (not target or target.lstrip(".") in lines[0])
         if not clean:
             exc = last.split(":")[0] if tb else "none"
             res.violate(
